@@ -105,6 +105,15 @@ def build(tier, rnd):
     for prog in ["def f() do return; end; f()", "def f() do return end; f()", "def f() return; f()", "def f() do 1; return; end; f()", "return", "return;",
                  "for x in [1] do return end", "def f() do if TRUE then return; 5 end; f()", "(fn() do return end)()", "def o = <*m = fn(self) do return; end*>; o->m()"]:
         cases.append(("bare-return", prog, False))
+    # a collection changed by the body of the loop / comprehension that runs over it (bounded: it must end)
+    for coll in ["<*a = 1, b = 2*>", "<<<1 => 2, 3 => 4>>>", "<<1, 2, 3>>", "[1, 2, 3]", "'abc'"]:
+        for body in ["c->zz = 1", "c['zz'] = 1", "c[9] = 1", "remove(c, k)", "append(c, 9)", "delete_at(c, 0)", "put(c, 99, 1)", "c = NULL", "if length(c) < 6 then append(c, k)",
+                     "if length(c) < 6 then c[length(c) + 10] = 1"]:
+            if coll.startswith("[") and body == "append(c, 9)":
+                continue          # appending to the list a for statement runs over never ends, by the language's definition (as in the host language)
+            for loop in ["for k in c do %s end; c", "for k in keys c do %s end; c", "for [k, v] in entries c do %s end; c", "[do %s end for k in c]", "<<do %s; 1 end for k in c>>"]:
+                cases.append(("mutate-in-loop", "def c = %s; %s" % (coll, loop % body), False))
+                cases.append(("mutate-in-loop", "def c = %s; do %s catch all 0 end" % (coll, loop % body), False))
     for f in FORMS1:
         for a in P:
             cases.append((f, f.replace("$a", a), False))
